@@ -332,8 +332,25 @@ func c11Sched(bound, maxExec int, triples bool) *core.Space {
 				}
 				return viol == nil
 			}
-			ex.Explore(scenario, check)
-			res := core.Result{Trans: ex.Executions, States: 1, Nontrivial: ex.Executions > 1, Extra: map[string]int{"schedules": ex.Executions, "max_points": ex.MaxPoints}}
+			var failing []int
+			if vec, replaying := core.ReplayChoices(); replaying {
+				x := scenario(vec)
+				check(x)
+				ex.Executions = 1
+				failing = vec
+			} else {
+				ex.Explore(scenario, func(x *sched.Execution) bool {
+					ok := check(x)
+					if !ok {
+						failing = append([]int{}, x.Choices...)
+					}
+					return ok
+				})
+			}
+			if viol != nil {
+				viol.Choices = failing
+			}
+			res := core.Result{Trans: ex.Executions, States: 1, Nontrivial: ex.Executions > 1 || viol != nil, Extra: map[string]int{"schedules": ex.Executions, "max_points": ex.MaxPoints}}
 			if ex.Capped {
 				res.Extra["scenarios_capped"] = 1
 			}
